@@ -145,8 +145,9 @@ def run(tier: str, driver_ok: bool) -> Result:
     n_ok = 90 if tier == "quick" else 900
     n_bad = 25 if tier == "quick" else 200
     runs: list[dict[str, Any]] = []
-    for i in range(n_ok):
-        sc = S.gen_scenario(r, quick=(tier == "quick"))
+    specials = S.special_scenarios(r)
+    for i in range(n_ok + len(specials)):
+        sc = specials[i - n_ok] if i >= n_ok else S.gen_scenario(r, quick=(tier == "quick"))
         what = "create_skr" if (sc.meta["alg"] in (8, 10) and i % 2 == 0) else "sign_bundles"
         x = S.run_sign(sc, what)
         x["case"] = {"what": what, "scenario": S.describe(sc)}
